@@ -417,6 +417,10 @@ func c08RMW(c *Ctx) {
 						guarded = true
 					}
 				}
+				if !guarded {
+					// the index was found first and is used afterwards
+					guarded = c08MatchIndex(fn, cd, ia.Index, isCellLoad, entryCommand, entry)
+				}
 				r.Check(guarded, "O-3", key, c.P.Pos(st.Pos()), "commands[i] = entry under commands[i].Command == entry.Command", "an existing notebook entry is overwritten without the test that its command string equals the new entry's (or with a different index)")
 			}
 		})
@@ -427,7 +431,7 @@ func c08RMW(c *Ctx) {
 				return
 			}
 			n := ssau.CallName(call)
-			if (strings.HasPrefix(n, "sort.") || strings.HasPrefix(n, "slices.") || n == "builtin.copy" || n == "builtin.clear") && len(call.Common().Args) > 0 && isCellLoad(ssau.Strip(call.Common().Args[0])) {
+			if (strings.HasPrefix(n, "sort.") || strings.HasPrefix(n, "slices.") || n == "builtin.copy" || n == "builtin.clear") && !readOnlySliceFunc[n] && len(call.Common().Args) > 0 && isCellLoad(ssau.Strip(call.Common().Args[0])) {
 				r.Bad("O-3", fk+"#reorder", c.P.Pos(call.Pos()), "the notebook slice is reordered or overwritten by "+n+": earlier entries do not keep their position")
 			}
 		})
@@ -496,20 +500,15 @@ func c08RMW(c *Ctx) {
 		}
 	})
 	r.Floor("O-3", "notebook update sites (append + replace)", nStores+nElem, 2)
-	// 4. every write call gets the cell's current value
+	// 4. every write gets the cell's current value: through the writing helper
+	// (path, list) or, when that is written out here, the atomic replace of
+	// yaml.Marshal(list)
 	var writes []*ssa.Call
-	ssau.ForEachInstr(fn, false, func(in ssa.Instruction) {
-		call, ok := in.(*ssa.Call)
-		if !ok {
-			return
-		}
-		n := ssau.CallName(call)
-		if n == cliPkg+".writePersonalDatabase" {
-			writes = append(writes, call)
-			wOK := isCellLoad(call.Common().Args[1]) || (upsert != nil && call.Common().Args[1] == ssa.Value(upsert))
-			r.Check(wOK && call.Common().Args[0] == ssa.Value(fn.Params[0]), "O-3", fmt.Sprintf("%s#write-%d", fk, len(writes)), c.P.Pos(call.Pos()), "writes the updated slice to dbPath", "the slice written is not the updated notebook slice, or it is written to a different path")
-		}
-	})
+	for _, w := range notebookWrites(c, fn) {
+		writes = append(writes, w.call)
+		wOK := isCellLoad(w.list) || (upsert != nil && w.list == ssa.Value(upsert))
+		r.Check(wOK && (w.path == ssa.Value(fn.Params[0]) || ssau.ParamOf(w.path) == fn.Params[0]), "O-3", fmt.Sprintf("%s#write-%d", fk, len(writes)), c.P.Pos(w.call.Pos()), "writes the updated slice to dbPath", "the slice written is not the updated notebook slice, or it is written to a different path")
+	}
 	r.Floor("O-3", "write calls", len(writes), 1)
 	// 4b. success is reported only through the write: a constant-nil error is
 	// returned only after a write whose own error was tested nil on every
@@ -630,6 +629,122 @@ func sameElement(base ssa.Value, ia *ssa.IndexAddr, isCellLoad func(ssa.Value) b
 	return false
 }
 
+// c08MatchIndex: idx is the position of an element whose command string was
+// found equal to the entry's — recorded by a search loop (every way a
+// non-negative value gets into idx is a loop index i assigned under
+// commands[i].Command == entry.Command), or returned by slices.IndexFunc with
+// a predicate that is exactly that comparison.
+func c08MatchIndex(fn *ssa.Function, cd map[*ssa.BasicBlock][]ssau.CtrlDep, idx ssa.Value, isCellLoad, entryCommand func(ssa.Value) bool, entry *ssa.Parameter) bool {
+	idx = ssau.ResolveCell(idx)
+	// slices.IndexFunc(commands, func(c Command) bool { return c.Command == entry.Command })
+	if call, ok := idx.(*ssa.Call); ok && strings.HasPrefix(ssau.CallName(call), "slices.IndexFunc") {
+		a := call.Common().Args
+		if len(a) != 2 || !isCellLoad(ssau.Strip(a[0])) {
+			return false
+		}
+		var pred *ssa.Function
+		switch pv := a[1].(type) {
+		case *ssa.MakeClosure:
+			pred, _ = pv.Fn.(*ssa.Function)
+		case *ssa.Function:
+			pred = pv
+		}
+		if pred == nil || len(pred.Params) != 1 {
+			return false
+		}
+		rets := ssau.ReturnsOf(pred)
+		if len(rets) != 1 {
+			return false
+		}
+		op, x, y, ok := ssau.CondOf(rets[0].Results[0])
+		if !ok || op != token.EQL {
+			return false
+		}
+		elemCmd := func(v ssa.Value) bool {
+			base, ok := ssau.IsFieldLoad(v, cmdType, "Command")
+			if !ok {
+				return false
+			}
+			return base == ssa.Value(pred.Params[0]) || ssau.ParamOf(base) == pred.Params[0] || paramCell(base, pred.Params[0])
+		}
+		entCmd := func(v ssa.Value) bool {
+			base, ok := ssau.IsFieldLoad(v, cmdType, "Command")
+			if !ok {
+				return false
+			}
+			if fv, isFV := base.(*ssa.FreeVar); isFV {
+				if cell := ssau.FreeVarCell(fv); cell != nil {
+					for _, ref := range *cell.Referrers() {
+						if st, ok := ref.(*ssa.Store); ok && st.Addr == ssa.Value(cell) && st.Val == ssa.Value(entry) {
+							return true
+						}
+					}
+				}
+			}
+			return false
+		}
+		return (elemCmd(x) && entCmd(y)) || (elemCmd(y) && entCmd(x))
+	}
+	seen := map[ssa.Value]bool{}
+	var leafOK func(v ssa.Value, pred *ssa.BasicBlock) bool
+	underTest := func(v ssa.Value, pred *ssa.BasicBlock) bool {
+		// v is assigned on the way through pred: under the equality test on element v
+		for _, d := range ssau.TransitiveControlDeps(cd, pred) {
+			op, x, y, ok := ssau.CondOf(d.If().Cond)
+			if !ok || !((op == token.EQL && d.Then) || (op == token.NEQ && !d.Then)) {
+				continue
+			}
+			var other ssa.Value
+			if entryCommand(x) {
+				other = y
+			} else if entryCommand(y) {
+				other = x
+			}
+			if other == nil {
+				continue
+			}
+			base, ok := ssau.IsFieldLoad(other, cmdType, "Command")
+			if !ok {
+				continue
+			}
+			if b, ok := base.(*ssa.IndexAddr); ok && b.Index == v && isCellLoad(b.X) {
+				return true
+			}
+			if u, ok := base.(*ssa.UnOp); ok {
+				if b, ok := u.X.(*ssa.IndexAddr); ok && b.Index == v && isCellLoad(b.X) {
+					return true
+				}
+			}
+		}
+		return false
+	}
+	leafOK = func(v ssa.Value, pred *ssa.BasicBlock) bool {
+		if k, ok := ssau.ConstInt(v); ok {
+			return k < 0
+		}
+		if pred != nil && underTest(v, pred) {
+			return true
+		}
+		if ph, ok := v.(*ssa.Phi); ok {
+			if seen[ph] {
+				return true
+			}
+			seen[ph] = true
+			for k, e := range ph.Edges {
+				if !leafOK(e, ph.Block().Preds[k]) {
+					return false
+				}
+			}
+			return true
+		}
+		return false
+	}
+	if _, isPhi := idx.(*ssa.Phi); !isPhi {
+		return false
+	}
+	return leafOK(idx, nil)
+}
+
 // errorBlocksTargets: the error result of call is tested against nil and the
 // non-nil side cannot reach any of the target calls; moreover every path from
 // the call to a target passes that test.
@@ -648,28 +763,8 @@ func errorBlocksTargets(call *ssa.Call, targets []*ssa.Call) (bool, string) {
 		return false, "the error result is discarded: a failed read or parse would be followed by an overwrite"
 	}
 	fn := call.Parent()
-	cut := map[[2]int]bool{}
-	found := false
-	for _, ref := range *errv.Referrers() {
-		b, ok := ref.(*ssa.BinOp)
-		if !ok || !ssau.IsNilConst(b.Y) && !ssau.IsNilConst(b.X) {
-			continue
-		}
-		for _, r2 := range *b.Referrers() {
-			iff, ok := r2.(*ssa.If)
-			if !ok {
-				continue
-			}
-			found = true
-			// success edge: err == nil true / err != nil false
-			succ := 1
-			if b.Op == token.EQL {
-				succ = 0
-			}
-			cut[[2]int{iff.Block().Index, succ}] = true
-		}
-	}
-	if !found {
+	cut, _ := nilTests(errv)
+	if len(cut) == 0 {
 		return false, "the error result is never compared with nil"
 	}
 	// with the success edges removed, no target may be reachable from the call
@@ -1019,4 +1114,90 @@ func c08Merge(c *Ctx, t *tables.Tree) {
 		})
 	}
 	r.Floor("O-5", "CLI loader call sites", nSites, 2)
+}
+
+// nbWrite is one write of the notebook in a function: the call whose error
+// tells whether the file was replaced, the list written and the path.
+type nbWrite struct {
+	call       *ssa.Call
+	list, path ssa.Value
+}
+
+// isRenamer: a function of the repository that replaces a file by os.Rename.
+func isRenamer(c *Ctx, g *ssa.Function) bool {
+	if g == nil || !c.P.IsRepoFunc(g) || len(g.Blocks) == 0 {
+		return false
+	}
+	return len(callsTo(g, "os.Rename")) > 0
+}
+
+// marshalledList: data is the bytes of yaml.Marshal(list) made in the same
+// function; returns list.
+func marshalledList(data ssa.Value) ssa.Value {
+	ex, ok := ssau.ResolveCell(data).(*ssa.Extract)
+	if !ok || ex.Index != 0 {
+		return nil
+	}
+	m, ok := ex.Tuple.(*ssa.Call)
+	if !ok || !strings.HasPrefix(ssau.CallName(m), yamlPkg+".Marshal") || len(m.Common().Args) != 1 {
+		return nil
+	}
+	return ssau.Strip(m.Common().Args[0])
+}
+
+// notebookWrites finds the notebook writes of fn: a direct atomic replace of
+// the marshalled list, or a call of a helper that does exactly that with its
+// own (path, list) parameters.
+func notebookWrites(c *Ctx, fn *ssa.Function) []nbWrite {
+	var out []nbWrite
+	ssau.ForEachInstr(fn, false, func(in ssa.Instruction) {
+		call, ok := in.(*ssa.Call)
+		if !ok {
+			return
+		}
+		g := call.Common().StaticCallee()
+		a := call.Common().Args
+		if isRenamer(c, g) && len(a) >= 2 {
+			if list := marshalledList(a[1]); list != nil {
+				out = append(out, nbWrite{call, list, a[0]})
+			}
+			return
+		}
+		if g == nil || !c.P.IsRepoFunc(g) || len(g.Blocks) == 0 {
+			return
+		}
+		// a helper: its own notebook write uses two of its parameters
+		for _, hw := range notebookWritesDirect(c, g) {
+			pi, li := -1, -1
+			for i, p := range g.Params {
+				if hw.path == ssa.Value(p) || ssau.ParamOf(hw.path) == p {
+					pi = i
+				}
+				if hw.list == ssa.Value(p) || ssau.ParamOf(hw.list) == p {
+					li = i
+				}
+			}
+			if pi >= 0 && li >= 0 && pi < len(a) && li < len(a) {
+				out = append(out, nbWrite{call, a[li], a[pi]})
+			}
+		}
+	})
+	return out
+}
+
+func notebookWritesDirect(c *Ctx, g *ssa.Function) []nbWrite {
+	var out []nbWrite
+	ssau.ForEachInstr(g, false, func(in ssa.Instruction) {
+		call, ok := in.(*ssa.Call)
+		if !ok {
+			return
+		}
+		a := call.Common().Args
+		if isRenamer(c, call.Common().StaticCallee()) && len(a) >= 2 {
+			if list := marshalledList(a[1]); list != nil {
+				out = append(out, nbWrite{call, list, a[0]})
+			}
+		}
+	})
+	return out
 }
